@@ -20,7 +20,7 @@ RULE = ("case = history: a pool of caller-owned config dicts (markup and stylesh
 ASSUME = ["`lorem` is not used (its randomness is the only documented impurity)",
           "instance counting sees emmet-defined class instances and module-level/default-argument containers, not interned strings or C-level state"]
 
-ABBRS_M = ['ul>li*2', 'ul>li*', 'p{$#}*', 'a', 'a[href=x]{t}', 'div.b_m>.-e', 'ul.nav>.-item*2>._active', 'div.b>div.-e>div.-e', 'bad', 'bad2>p', 'x1+bad', 'a[', 'p{', '(a',
+ABBRS_M = ['doc', 'ul>li*2', 'ul>li*', 'p{$#}*', 'a', 'a[href=x]{t}', 'div.b_m>.-e', 'ul.nav>.-item*2>._active', 'div.b>div.-e>div.-e', 'bad', 'bad2>p', 'x1+bad', 'a[', 'p{', '(a',
            'foo', 'foo.a.b', 'p{${v}}', 'vare>p', 'tm', '!', 'table>.r>.c', 'ul>li.i$*3', 'a:link', 'select>.o', 'ul>li*5', 'x1*4>x2*2', '', '()', '()*3', '(())']
 ABBRS_C = ['m10', 'p10-20', 'm', 'p', 'bd', 'c#fc0', 'fz1.5', 'lh2', 'z10', 'm10+p', 'bad', 'xx', 'm-a', 'pos:a', 'trf:rx', 'w100p', 'mah', 'p!', '(', 'm10-', 'trf-s(2, 3)', 'trf-s(1)', 'trf-s', 'trf:r(45deg)', 'trf:r']
 
@@ -39,6 +39,8 @@ CFG_M = [
     {'maxRepeat': 2, 'text': ['a', 'b', 'c']},
     {'maxRepeat': 1},
     {'options': {'output.format': False, 'output.tagCase': 'upper'}},
+    {'variables': {'lang': 'de'}},
+    {'variables': {'lang': 'fr', 'charset': 'koi8-r'}, 'options': {'output.format': False}},
 ]
 CFG_C = [
     {'type': 'stylesheet'},
@@ -275,6 +277,14 @@ def pair_cases():
                                  {'abbr': a1, 'cfg': 0, 'via': 'dict', 'cache': 0 if shared else None}]}
 
 
+    # snippet bodies that use variables (`!`, `doc`: ${lang}, ${charset}) under configs that give those variables different values
+    fam_v = [(a, c) for a in ('!', 'doc', 'p{${v}}') for c in (0, 9, 14, 15)]
+    for (a1, c1) in fam_v:
+        for (a2, c2) in fam_v:
+            cfgs = [CFG_M[c1]] + ([CFG_M[c2]] if c2 != c1 else [])
+            j = 0 if c2 == c1 else 1
+            yield {'cfgs': cfgs, 'ncaches': 0, 'steps': [{'abbr': a1, 'cfg': 0, 'via': 'dict', 'cache': None}, {'abbr': a2, 'cfg': j, 'via': 'dict', 'cache': None},
+                                                          {'abbr': a1, 'cfg': 0, 'via': 'Config', 'cache': None}]}
     # one stylesheet config, one cache shared by all three calls: every ordered pair of the stylesheet abbreviation pool (tokens of the cached
     # snippet table must not be altered by what one abbreviation writes into them — function-call arguments, units, colours)
     for a1 in ABBRS_C:
